@@ -4,7 +4,7 @@
     region on the screen) and the parameter stack has the depth the parser state requires. *)
 From Coq Require Import ZArith NArith List Bool.
 Import ListNotations.
-From PV Require Import Screen.Model Screen.Facts Ansi.Names Gen.AnsiTable Ansi.Model Ansi.Proofs IO.Model Ansi.Bytes.
+From PV Require Import Screen.Model Screen.Facts Ansi.Names Gen.AnsiTable Ansi.Model Ansi.Proofs IO.Model Ansi.Bytes Ansi.Plain.
 
 (** the generated table is well typed: in every state, every transition it can take finds enough parameters *)
 Theorem C18_table_well_typed : table_well_typed = true.
@@ -32,6 +32,21 @@ Print Assumptions C18_no_residue.
 Theorem C18_chunk_independent : forall chunks a, feed_chunks a chunks = feed a (concat chunks).
 Proof. exact chunk_independent. Qed.
 Print Assumptions C18_chunk_independent.
+
+(** text without escape sequences (any characters but ESC, controls included), arriving while no sequence is open, is
+    written character by character through write_ch; the parser stays in INIT and its memory is untouched.  Rests on a
+    finite check of the regenerated table: ESC is the only exact INIT entry and INIT's any-entry is DoEmit -> INIT. *)
+Theorem C18_plain_text_is_emitted : forall t a, pstate a = S_INIT -> ~ In 27%N t ->
+  feed a t = Some (mkAnsi (fold_left write_ch t (scrn a)) S_INIT (stack a)).
+Proof. exact plain_text. Qed.
+Print Assumptions C18_plain_text_is_emitted.
+
+(** an ordinary character (not CR / LF / BS) written while the cursor is left of the last column lands in the cursor's
+    cell, the cursor moves one column right, and nothing else changes *)
+Theorem C18_ordinary_character : forall s ch, wf s -> ch <> 13%N -> ch <> 10%N -> ch <> 8%N -> (cur_c s < cols s)%Z ->
+  write_ch s ch = set_cur (put_abs s (cur_r s) (cur_c s) ch) (cur_r s) (cur_c s + 1).
+Proof. exact write_ch_ordinary. Qed.
+Print Assumptions C18_ordinary_character.
 
 (** BYTES input (Ansi/Bytes.v): every write decodes its piece with the screen's incremental decoder - ANY Mealy machine
     over bytes [C] - and parses the text; the decoder state and the terminal are carried from write to write.  Cuts
